@@ -32,6 +32,8 @@ def run(ctx: Context) -> None:
     _infra.wrapper_non_spatial(ctx, 'R12.7')
     _infra.every_depth_coordinate(ctx, 'R12.7')
     _infra.depth_coordinates_only_read(ctx, 'R12.7')
+    _infra.depth_markers(ctx, 'R12.7')
+    _infra.shoc_depth_names(ctx, 'R12.7')
     from .common import adopt_foundations as _adopt
     _adopt(ctx, 'R12.6', ['order'], floor=60)
     ctx.assume("NOT decided: NaN semantics of cumsum/argmax, all-NaN columns, static sea floor across the variables of a group - run-time numerical facts")
